@@ -138,7 +138,9 @@ def make_wrapper(
             This means that those changes can be reverted from this point out.
             """
             self._configurable.commit()
-            object.__setattr__(self, "_reuse_pt", 0)
+            # reuse points are never handed out twice; resetting to zero would
+            # revive whatever was cached at point zero before the changes.
+            object.__setattr__(self, "_reuse_pt", self._reuse_pt + 1)
 
         def changes_count(self):
             """current commit point for the configurable"""
@@ -208,6 +210,7 @@ def make_wrapper(
                     entry_point = self.changes_count()
                     try:
                         list(map(self._configurable.remove, vals))
+                        object.__setattr__(self, "_reuse_pt", self._reuse_pt + 1)
                         return True
                     except Unchangable:
                         self.rollback(entry_point)
